@@ -70,7 +70,8 @@ def diff_snapshot(a: dict, b: dict) -> list[str]:
                 if da.get(k) != db.get(k):
                     what = {"tid": "tensor identity", "vid": "value identity", "bytes": "tensor bytes",
                             "ext": "external-tensor state", "tcls": "tensor class"}.get(k, k)
-                    out.append(f"graph {ga['name']}: initializer {da['key']!r}: {what} changed ({da.get(k)} -> {db.get(k)})")
+                    shown = "" if k in ("tid", "vid") else f" ({da.get(k)} -> {db.get(k)})"  # no addresses in logs
+                    out.append(f"graph {ga['name']}: initializer {da['key']!r}: {what} changed{shown}")
     if a["proto"] != b["proto"]:
         out.append("serialized model changed")
     return out
@@ -345,6 +346,8 @@ def run_save(recipe: dict, plan: dict | None, root: str, retry: bool = True) -> 
                     d = diff_snapshot(snap0, snapshot(model))
                     if d:
                         rec["violations"].append({"class": "model-changed", "detail": ["after retry"] + d[:5]})
+        for v in rec["violations"]:  # no scratch paths in logs / digests
+            v["detail"] = [str(x).replace(sandbox, "<sandbox>").replace(root, "<root>") for x in v.get("detail", [])]
         rec["files"] = [n for n, _ in _listing(sandbox)]
         rec["sizes"] = {n: s for n, s in _listing(sandbox)}
         return rec
